@@ -84,6 +84,33 @@ def handler(payload):
             out.append(capture(go))
             for p in paths:
                 os.remove(p)
+        elif kind == "wh_kernel":
+            # one of the three Widrow-Hoff kernels on hand-made chunk files (events without cues or outcomes included)
+            paths = []
+            for i, bs in enumerate(job["files"]):
+                p = os.path.join(wd, "whchunk_%d_%d.dat" % (k, i))
+                with open(p, "wb") as f:
+                    f.write(bytes(bs))
+                paths.append(p)
+            fr = lambda nd: nd[0] / nd[1]
+            tab = lambda t: np.array([[fr(x) for x in row] for row in t], dtype=np.float64)
+            fl = job["flavour"]
+
+            def go():
+                W = np.zeros(tuple(job["shape"]))
+                if fl == "b2r":
+                    ndl_openmp.learn_inplace_binary_to_real(paths, fr(job["eta"]), tab(job["ov"]), W,
+                                                            job["chunksize"], job["n_jobs"])
+                elif fl == "r2b":
+                    ndl_openmp.learn_inplace_real_to_binary(paths, fr(job["b1"]), fr(job["b2"]), fr(job["lam"]),
+                                                            tab(job["cv"]), W, job["chunksize"], job["n_jobs"])
+                else:
+                    ndl_openmp.learn_inplace_real_to_real(paths, fr(job["eta"]), tab(job["cv"]), tab(job["ov"]), W,
+                                                          job["chunksize"], job["n_jobs"])
+                return [[float(x) for x in row] for row in W]
+            out.append(capture(go))
+            for p in paths:
+                os.remove(p)
         else:
             raise ValueError(kind)
     return out
